@@ -164,11 +164,12 @@ func c15concBody() {
 	}
 	// final consistency
 	members := map[*Host]bool{}
-	for _, x := range s.All() {
+	all := s.All()
+	for _, x := range all {
 		members[x] = true
 	}
 	var main, backup []*Host
-	for x := range members {
+	for _, x := range all { // (slice order: the harness must not iterate a map, Go randomises the order)
 		if !x.IsHealthy() {
 			continue
 		}
